@@ -291,11 +291,11 @@ func c16Run(c *vc.Ctx) {
 		}
 	}
 	// (2) grammar trees
-	tags := [][]byte{{0x01}, {0x30}, {0x5F, 0x1F}, {0x7F, 0x49}, {0x00}}
+	tags := [][]byte{{0x01}, {0x30}, {0x5F, 0x1F}, {0x7F, 0x49}, {0x00}, {0x7F, 0x81, 0x01}, {0x5F, 0xA1, 0x01}, {0x9F, 0x81, 0x81, 0x01}, {0xBF, 0xA1, 0x81, 0x01}}
 	forms := []int{0, 1, 2, 3, 4}
 	vals := [][]byte{{}, {0, 0}, {0xAA}}
 	sec2 := "grammar<=3nodes"
-	c.SecBound(sec2, "all forests with 1..3 nodes, depth<=3, tags {01,30,5F1F,7F49,00} x length forms {short,81,82,84,indefinite} x values {empty,0000,AA}")
+	c.SecBound(sec2, "all forests with 1..3 nodes, depth<=3, tags {01,30,5F1F,7F49,00, 3-byte 7F8101 (constructed) and 5FA101 (primitive, 2nd octet has bit 6 set), 4-byte 9F818101 and BFA18101} x length forms {short,81,82,84,indefinite} x values {empty,0000,AA}")
 	var twoNode [][]byte
 	for n := 1; n <= 3; n++ {
 		c16Forests(n, 3, tags, forms, vals, func(ts []*c16Tree) {
